@@ -39,6 +39,8 @@ package breaker
 //@ ghost var gAcc int
 //@ ghost var gTot int
 //@ ghost var gCnt int
+//@ ghost var gFail int
+//@ ghost var gWork int
 //@ func (b *googleBreaker) history
 //@   property C01
 //@   requires collection.rwOK(b.stat)
@@ -66,17 +68,18 @@ package breaker
 //@   property C01
 //@   float real
 //@   requires brkOK(b)
-//@   ghost at after history#0: H = ret
+//@   ghost at after history#0: gFail = ret.failingBuckets
+//@   ghost at after history#0: gWork = ret.workingBuckets
 //@   ensures  implies(result != nil, result == ErrServiceUnavailable)
-//@   ensures  implies(result != nil, 10*(H.total-5) > 11*H.accepts)
-//@   ensures  implies(result != nil, throttling(H.accepts, H.total, H.failingBuckets) && adVal[b.lastPass] == old(adVal[b.lastPass]))
+//@   ensures  implies(result != nil, 10*(gTot-5) > 11*gAcc)
+//@   ensures  implies(result != nil, throttling(gAcc, gTot, gFail) && adVal[b.lastPass] == old(adVal[b.lastPass]))
 //@   ensures  implies(old(adVal[b.lastPass]) > 0 && now - old(adVal[b.lastPass]) > time.Second, result == nil)
-//@   ensures  implies(result == nil && throttling(H.accepts, H.total, H.failingBuckets), adVal[b.lastPass] == now)
-//@   ensures  implies(!throttling(H.accepts, H.total, H.failingBuckets), result == nil && adVal[b.lastPass] == old(adVal[b.lastPass]))
-//@   ensures  H.accepts == gAcc && H.total == gTot
-//@   call TrueOnProba#0: assert implies(H.accepts == 0 && H.workingBuckets == 0, arg_proba*real(H.total+1) == real(H.total-5))
-//@   call TrueOnProba#0: assert arg_proba*real(H.total+1)*40.0 == (real(H.total-5) - weight(H.failingBuckets)*real(H.accepts))*real(40-H.workingBuckets)
-//@   modifies adVal[b.lastPass], gAcc, gTot, gCnt
+//@   ensures  implies(result == nil && throttling(gAcc, gTot, gFail), adVal[b.lastPass] == now)
+//@   ensures  implies(!throttling(gAcc, gTot, gFail), result == nil && adVal[b.lastPass] == old(adVal[b.lastPass]))
+//@   ensures  0 <= gAcc && gAcc <= gTot
+//@   call TrueOnProba#0: assert implies(gAcc == 0 && gWork == 0, arg_proba*real(gTot+1) == real(gTot-5))
+//@   call TrueOnProba#0: assert arg_proba*real(gTot+1)*40.0 == (real(gTot-5) - weight(gFail)*real(gAcc))*real(40-gWork)
+//@   modifies adVal[b.lastPass], gAcc, gTot, gCnt, gFail, gWork
 
 // sustained total failure: with no accepted call in the window the drop probability is (total-5)/(total+1), at least 0.9 from 59 recorded calls on
 //@ lemma droprate(total float64, p float64)
@@ -99,3 +102,36 @@ package breaker
 //@   requires brkOK(b)
 //@   ensures  brkOK(b) && rwAdded[b.stat] == upd(old(rwAdded[b.stat]), 0, old(added(b, 0)) + 1)
 //@   modifies rwAdded[b.stat], bucket.Sum, bucket.Success, bucket.Failure, bucket.Drop, collection.RollingWindow.offset, collection.RollingWindow.lastTime
+
+//@ func (b *googleBreaker) doReq
+//@   property C01
+//@   flag callbacks_noheap
+//@   requires brkOK(b) && req != nil && acceptable != nil
+//@   requires req != acceptable && req != fallback && acceptable != fallback
+//@   ghost at after accept#0: rej = ret != nil
+//@   ghost at after accept#0: accErr = ret
+//@   ensures  implies(rej, accErr == ErrServiceUnavailable && calls(req) == old(calls(req)) && calls(acceptable) == old(calls(acceptable)))
+//@   ensures  implies(rej, added(b, 2) == old(added(b, 2)) + 1 && added(b, 0) == old(added(b, 0)) && added(b, 1) == old(added(b, 1)))
+//@   ensures  implies(rej && fallback != nil, calls(fallback) == old(calls(fallback)) + 1 && result == ret(fallback) && argOf(fallback, 0) == accErr)
+//@   ensures  implies(rej && fallback == nil, result == ErrServiceUnavailable)
+//@   ensures  implies(!rej, calls(req) == old(calls(req)) + 1 && result == ret(req) && calls(fallback) == old(calls(fallback)) && calls(acceptable) == old(calls(acceptable)) + 1 && argOf(acceptable, 0) == ret(req))
+//@   ensures  implies(!rej && ret(acceptable), added(b, 0) == old(added(b, 0)) + 1 && added(b, 1) == old(added(b, 1)) && added(b, 2) == old(added(b, 2)))
+//@   ensures  implies(!rej && !ret(acceptable), added(b, 1) == old(added(b, 1)) + 1 && added(b, 0) == old(added(b, 0)) && added(b, 2) == old(added(b, 2)))
+//@   ensures_panic implies(!rej, added(b, 1) == old(added(b, 1)) + 1 && added(b, 0) == old(added(b, 0)) && added(b, 2) == old(added(b, 2)) && calls(req) == old(calls(req)) + 1)
+//@   ensures_panic implies(rej, added(b, 2) == old(added(b, 2)) + 1 && added(b, 0) == old(added(b, 0)) && added(b, 1) == old(added(b, 1)) && calls(req) == old(calls(req)))
+
+//@ func (b *googleBreaker) allow
+//@   property C01
+//@   results p, err
+//@   requires brkOK(b)
+//@   ensures  implies(err != nil, err == ErrServiceUnavailable && p == nil && added(b, 2) == old(added(b, 2)) + 1 && added(b, 0) == old(added(b, 0)) && added(b, 1) == old(added(b, 1)))
+//@   ensures  implies(err == nil, p != nil && rwAdded[b.stat] == old(rwAdded[b.stat]))
+
+//@ func (p googlePromise) Accept
+//@   property C01
+//@   requires brkOK(p.b)
+//@   ensures  rwAdded[p.b.stat] == upd(old(rwAdded[p.b.stat]), 0, old(added(p.b, 0)) + 1)
+//@ func (p googlePromise) Reject
+//@   property C01
+//@   requires brkOK(p.b)
+//@   ensures  rwAdded[p.b.stat] == upd(old(rwAdded[p.b.stat]), 1, old(added(p.b, 1)) + 1)
